@@ -1,7 +1,7 @@
 (* Serve.v — model of ONE connection's serve loop: server.go serveConnCounted, with its callers
    (Server.Serve + workerPool.workerFunc, Server.ServeConn) where they report connection states and
    close the connection, and hijackConnHandler.  Owner: C10 / C14 / C17; shared with the other
-   serve-loop properties.  Models /repo as of c40b715 (server.go as of a4aa200).
+   serve-loop properties.  Models /repo as of 8ad8bae (server.go as of ce44e94).
 
    INTERFACE FOR IMPORTERS
      scfg                   the Server fields the loop reads (ReduceMemoryUsage, StreamRequestBody, DisableKeepalive,
@@ -358,7 +358,9 @@ Definition finish_request (num : N) (q : req_sum) (cont : bool) (cc0 : bool) (st
     (* hjr = br or c; bw.Flush(); go hijackConnHandler(...); err = errHijacked; break *)
     (ev_disp ++ ev_resp ++ (if dirty1 then [Flush] else []) ++ [HijackEv (hj_src_of br fbr) b cs], ExitHijack)
   else
-    (* s.setState(c, StateIdle); if s.stop.Load() == 1 { bw.Flush(); break } *)
+    (* idleConnTime.Store(...) only when nothing is buffered in br and bw (ce44e94; not an event: it only decides
+       whether Shutdown may close the connection as idle, i.e. when gone_at_start can be true);
+       s.setState(c, StateIdle); if s.stop.Load() == 1 { bw.Flush(); break } *)
     if stop_at_idle E num
     then (ev_disp ++ ev_resp ++ [St StIdle] ++ (if dirty1 then [Flush] else []), Exit)
     else (ev_disp ++ ev_resp ++ [St StIdle],
